@@ -18,6 +18,7 @@ import LinVerif.Lemmas.C20SeekMachine
 import LinVerif.Lemmas.C20Reuse
 import LinVerif.Lemmas.C20PrevMachine
 import LinVerif.Lemmas.C20Walk
+import LinVerif.Lemmas.C20WireErr
 import LinVerif.Model.Louds
 import LinVerif.Model.TrieBucket
 import LinVerif.Generated.C20
@@ -426,6 +427,62 @@ theorem unmarshal_marshal_encode (t : Node) (hb : WireBounded (toWire (encode t)
 /-- `len(Write t) = MarshalSize t` -/
 theorem marshal_size (w : Wire) (h : WireOK w) : (marshal w).length = marshalSize w :=
   marshal_length w h
+
+/-- round trip on the BRANCH-FOR-BRANCH reader (`TrieWire.unmarshalR`: every length check, every unchecked
+slice expression, the uint32 wrap of the recomputed lengths): a well-formed image whose recomputed lengths
+do not wrap is accepted and yields exactly the written trie -/
+theorem unmarshal_errpaths_marshal (w : Wire) (h : WireOK w) (hf : WireFits w) : unmarshalR (marshal w) = .ok w :=
+  unmarshalR_marshal_wire w h hf
+
+/-- **a truncated image is never accepted**: for EVERY proper prefix of a serialised trie
+`UnmarshalBinary` returns an error or panics (the unchecked `buf[4:4+size]`, `buf[:4]`, `buf[:totalKeys*4]`
+slices) — it never yields a trie, in particular never a different one -/
+theorem unmarshal_truncated_never_ok (w : Wire) (h : WireOK w) (hf : WireFits w) (m : Nat)
+    (hm : m < (marshal w).length) : ∀ w', unmarshalR ((marshal w).take m) ≠ .ok w' :=
+  unmarshalR_truncated w h hf m hm
+
+/-- … for the encoding of every tree under the size bounds only -/
+theorem unmarshal_truncated_never_ok_encode (t : Node) (hb : WireBounded (toWire (encode t)))
+    (h4 : U32 (4 + (encode t).labels.length)) (m : Nat) (hm : m < (marshal (toWire (encode t))).length) :
+    ∀ w', unmarshalR ((marshal (toWire (encode t))).take m) ≠ .ok w' := by
+  have hfit : ∀ n, U32 n → U32 ((n / rankSparseBlockSize + 1) * 4) := by
+    intro n hn; unfold U32 rankSparseBlockSize at *; omega
+  exact unmarshalR_truncated _ (wireOK_encode t hb)
+    ⟨h4, ⟨hfit _ hb.hasChildBits⟩, ⟨hfit _ hb.pfxBits⟩, ⟨hfit _ hb.sfxBits⟩⟩ m hm
+
+/-- `UnmarshalBinary` looks only at the bytes it consumes: bytes after an accepted image change nothing -/
+theorem unmarshal_ignores_trailing_bytes (b s : List Nat) (w : Wire) (h : unmarshalR b = .ok w) :
+    unmarshalR (b ++ s) = .ok w := by
+  unfold unmarshalR at h ⊢
+  cases hp : parseR b with
+  | err k => rw [hp] at h; cases h
+  | panic => rw [hp] at h; cases h
+  | ok xr =>
+    obtain ⟨x, r⟩ := xr
+    rw [hp] at h
+    rw [ext_parseR b s x r hp]
+    exact h
+
+/-- **no state leaks between uses of a pooled trie object** (`trie.GetTrie` / `PutTrie`,
+`TrieBucket.Release`): whatever the object held before (`prev` arbitrary — a larger dictionary, or the
+half-assigned fields a FAILED `UnmarshalBinary` leaves), the outcome of `UnmarshalBinary(buf)` is that of
+a fresh object and after success the object is exactly the parsed image -/
+theorem unmarshal_into_used_object (prev : Wire) (b : List Nat) :
+    (unmarshalInto prev b).2 = (match unmarshalR b with | .ok _ => .ok () | .err k => .err k | .panic => .panic) ∧
+    (∀ w, unmarshalR b = .ok w → (unmarshalInto prev b).1 = w) :=
+  unmarshalInto_spec prev b
+
+/-- … in particular a good load after a failed one on the same object -/
+theorem unmarshal_after_failed_unmarshal (prev : Wire) (b1 b2 : List Nat) (w : Wire) (h : unmarshalR b2 = .ok w) :
+    (unmarshalInto (unmarshalInto prev b1).1 b2).1 = w :=
+  (unmarshalInto_spec _ b2).2 w h
+
+-- the failure modes are all inhabited (the last one: `4+size` wraps to 3, the slice `buf[4:3]` panics)
+example : unmarshalR [1, 0, 0, 0, 1, 0, 0, 0] = .err "eof" := by decide
+example : unmarshalR [1, 0, 0, 0, 1, 0, 0, 0, 9] = .err "labels-short" := by decide
+example : unmarshalR [1, 0, 0, 0, 1, 0, 0, 0, 9, 0, 0, 0, 97] = .panic := by decide
+example : unmarshalR [1, 0, 0, 0, 1, 0, 0, 0, 255, 255, 255, 255, 97] = .panic := by decide
+example : unmarshalR [1, 0, 0, 0, 1, 0, 0, 0, 1, 0, 0, 0, 97, 1, 0, 0] = .err "rank-header" := by decide
 
 /-- **a build is independent of the builder's previous builds**: whatever the re-used buffers of
 the builder (`hasChildVec`, `loudsVec`, `prefixVec`, `suffixVec` bit buffers and rank tables) held
